@@ -159,7 +159,8 @@ func RunC1(rc *RunCtx, sc *C1) *C1Outcome {
 	s.Tracing = rc.Tracing
 	out := &C1Outcome{}
 	modbus.SimBeforeLock = func(l *sync.RWMutex, write bool) { s.BeforeLock(l, write, "client") }
-	defer func() { modbus.SimBeforeLock = nil }()
+	modbus.SimAfterLock = s.AfterLock
+	defer func() { modbus.SimBeforeLock, modbus.SimAfterLock = nil, nil }()
 
 	cl, _ := NewPipe(s, "c")
 	cl.Name = "cli"
